@@ -52,6 +52,15 @@ func PrecRule(w *World, r *Result, rule string) {
 				body = generic
 			}
 			assoc = associativity(body, cur, generic != nil)
+			// an operand parsed by this level or one below it (the entry of the chain included)
+			// swallows operators that bind more loosely: a && b || c becomes a && (b || c)
+			if assoc != "right" {
+				for lower := range seen {
+					if callsStatically(body, lower) && lower != cur {
+						assoc = "below (an operand is parsed by " + FuncName(lower) + ", a level that binds more loosely)"
+					}
+				}
+			}
 			levels = append(levels, level{fn: cur, ops: ops, assoc: assoc})
 		}
 		cur = next
@@ -98,7 +107,11 @@ func PrecRule(w *World, r *Result, rule string) {
 		if lv.assoc == "left" {
 			r.Ok(rule, akey, pos, "left-associative (loop carrying the left operand, right operand from the next level)")
 		} else {
-			r.Bad(rule, akey, pos, fmt.Sprintf("operators %v are parsed %s-associatively (the right operand is parsed by the same level): a chain such as 1 < 2 == true – well-typed in Go, where it means (1 < 2) == true – is grouped from the right and rejected", lv.ops, lv.assoc))
+			if strings.HasPrefix(lv.assoc, "below") {
+				r.Bad(rule, akey, pos, fmt.Sprintf("operators %v: the right operand is parsed %s: everything to the right is grouped first", lv.ops, lv.assoc))
+			} else {
+				r.Bad(rule, akey, pos, fmt.Sprintf("operators %v are parsed %s-associatively (the right operand is parsed by the same level): a chain such as 1 < 2 == true – well-typed in Go, where it means (1 < 2) == true – is grouped from the right and rejected", lv.ops, lv.assoc))
+			}
 		}
 	}
 	// every binary operator spelling of the lexer table is on exactly one level
@@ -657,4 +670,15 @@ func ChainRule(w *World, b *Backend, r *Result, rule string) {
 			r.Ok(rule, key, pos, m+" continues the open construct: "+lines[len(lines)-1].Variant.String())
 		}
 	}
+}
+
+func callsStatically(fn, callee *ssa.Function) bool {
+	for _, b := range fn.Blocks {
+		for _, ins := range b.Instrs {
+			if c, ok := ins.(*ssa.Call); ok && c.Call.StaticCallee() == callee {
+				return true
+			}
+		}
+	}
+	return false
 }
